@@ -313,10 +313,42 @@ func RandomTree(r *Rng, depth int) *Ft {
 		}
 		return t
 	case 10:
+		if r.Chance(1, 2) {
+			// a value list f:(v1 OR v2 …) in a random association (right-nested groups get their parentheses from Print)
+			n := 2 + r.Intn(4)
+			vals := make([]Leaf, n)
+			for i := range vals {
+				vals[i] = Pick(r, PlainValueLeaves)
+			}
+			return &Ft{K: "eqGroup", F: Pick(r, FieldLeaves), E: OrChain(r, vals)}
+		}
 		return &Ft{K: "eqGroup", F: Pick(r, FieldLeaves), E: RandomTree(r, depth-1)}
 	default:
 		return &Ft{K: "paren", E: RandomTree(r, depth-1)}
 	}
+}
+
+// PlainValueLeaves are plain (non-pattern) values for value lists.
+var PlainValueLeaves = []Leaf{
+	{Text: "b", Kind: "str", Str: "b"}, {Text: "c", Kind: "str", Str: "c"}, {Text: "d", Kind: "str", Str: "d"}, {Text: "e", Kind: "str", Str: "e"},
+	{Text: `"q r"`, Kind: "str", Str: "q r"}, {Text: "5", Kind: "int", Int: 5}, {Text: "-3", Kind: "int", Int: -3}, {Text: "1.5", Kind: "float", Flt: 1.5},
+}
+
+// OrChain joins the values, in order, with OR in a random association; a redundant pair of parentheses is added now and then.
+func OrChain(r *Rng, vals []Leaf) *Ft {
+	if len(vals) == 1 {
+		t := &Ft{K: "leaf", Leaf: vals[0]}
+		if r.Chance(1, 8) {
+			return &Ft{K: "paren", E: t}
+		}
+		return t
+	}
+	k := 1 + r.Intn(len(vals)-1)
+	t := &Ft{K: "or", L: OrChain(r, vals[:k]), R: OrChain(r, vals[k:])}
+	if r.Chance(1, 8) {
+		return &Ft{K: "paren", E: t}
+	}
+	return t
 }
 
 // StripJux clears every juxtaposition flag (explicit AND everywhere).
